@@ -277,6 +277,26 @@ impl Stream for CodecStream {
                     }
                 }
             }
+            // get responses carrying a value of the given length: whatever the storing node may send decodes
+            ["encval", n] => {
+                let n: usize = n.parse().expect("len");
+                let v: Vec<u8> = (0..n).map(|i| (i * 7 + 3) as u8).collect();
+                let id = |b: u8| Id::from_bytes([b; 20]).expect("id");
+                let m1 = Msg::new(7, None, None, MessageType::Response(ResponseSpecific::GetImmutable(GetImmutableResponseArguments { responder_id: id(1), token: vec![9, 9].into(), nodes: None, v: v.clone().into_boxed_slice() })), false);
+                let m2 = Msg::new(7, None, None, MessageType::Response(ResponseSpecific::GetMutable(GetMutableResponseArguments { responder_id: id(1), token: vec![9, 9].into(), nodes: None, v: v.clone().into_boxed_slice(), k: [3; 32], seq: 5, sig: [4; 64] })), false);
+                let mut shown = vec![];
+                for (what, m) in [("immutable", m1), ("mutable", m2)] {
+                    let bytes = m.to_bytes().expect("enc");
+                    match guarded(|| Msg::from_bytes(&bytes)) {
+                        Ok(Ok(m2)) if render_msg(&m2) == render_msg(&m) => shown.push(format!("{what}:ok:{}", bytes.len())),
+                        _ => {
+                            out.violation("C10", "roundtrip", format!("a get response carrying a {what} value of {n} bytes does not decode to the message that was encoded"));
+                            shown.push(format!("{what}:err"));
+                        }
+                    }
+                }
+                shown.join(" ")
+            }
             ["encint", t, seq, cas] => {
                 let t: u64 = t.parse().expect("t");
                 let seq: i64 = seq.parse().expect("seq");
@@ -695,6 +715,10 @@ pub fn generate(out: &mut Out, seed: u64, thorough: bool) {
     for n in [0u32, 1, 255, 256, 65_535, 65_536, 65_537, 1_000_000, 16_777_215, 16_777_216, 16_777_217, 0x0100_0001, u32::MAX - 1, u32::MAX] {
         out.run(&mut st, format!("enctid {n}"));
         out.count("gen:typed-tid");
+    }
+    for n in [0usize, 1, 999, 1000] {
+        out.run(&mut st, format!("encval {n}"));
+        out.count("gen:typed-value-size");
     }
     for (name, bytes) in bep44_examples() {
         out.run(&mut st, format!("bep {name} {}", hex(&bytes)));
